@@ -1208,6 +1208,24 @@ macro_rules! def_go {
                         exps.push(st.chk("target_iter", it, &Want::keep(&e1))?);
                     }
                     st.unchanged("target_iter", &ds, &before)?;
+                    // the same iterator consumed through the standard adaptors must yield the same columns
+                    if t >= 1 && !I::IX1 {
+                        let k = (pick / 3) % t;
+                        let got: Vec<(usize, _)> = match pick % 3 {
+                            0 => ds.target_iter().nth(k).into_iter().map(|it| (k, it)).collect(),
+                            1 => ds.target_iter().skip(k).next().into_iter().map(|it| (k, it)).collect(),
+                            _ => ds.target_iter().step_by(2).enumerate().map(|(q, it)| (2 * q, it)).collect(),
+                        };
+                        if got.is_empty() {
+                            return Err(st.viol("target_iter", "adaptor-yields-nothing", format!("pattern {} at column {k} of {t}", pick % 3)));
+                        }
+                        for (col, it) in got.iter() {
+                            let mut e1 = exp.clone();
+                            e1.tcols = vec![exp.tcols[*col]];
+                            st.chk("target_iter", it, &Want::keep(&e1))?;
+                        }
+                        st.count("target_iter/adaptor-forms");
+                    }
                     if items.is_empty() {
                         return $name(ds, exp, st);
                     }
@@ -1234,6 +1252,25 @@ macro_rules! def_go {
                         exps.push(st.chk("feature_iter", it, &w)?);
                     }
                     st.unchanged("feature_iter", &ds, &before)?;
+                    if p >= 1 {
+                        let k = (pick / 3) % p;
+                        let got: Vec<(usize, _)> = match pick % 3 {
+                            0 => ds.feature_iter().nth(k).into_iter().map(|it| (k, it)).collect(),
+                            1 => ds.feature_iter().skip(k).next().into_iter().map(|it| (k, it)).collect(),
+                            _ => ds.feature_iter().step_by(2).enumerate().map(|(q, it)| (2 * q, it)).collect(),
+                        };
+                        if got.is_empty() {
+                            return Err(st.viol("feature_iter", "adaptor-yields-nothing", format!("pattern {} at column {k} of {p}", pick % 3)));
+                        }
+                        for (col, it) in got.iter() {
+                            let mut e1 = exp.clone();
+                            e1.fcols = vec![exp.fcols[*col]];
+                            let mut w = Want::keep(&e1);
+                            w.fdrop = true;
+                            st.chk("feature_iter", it, &w)?;
+                        }
+                        st.count("feature_iter/adaptor-forms");
+                    }
                     if items.is_empty() {
                         return $name(ds, exp, st);
                     }
